@@ -36,4 +36,7 @@ CONSTANTS
   InlinedAsIs = TRUE
   MaxChain = 10
   BoundBeforeRead = FALSE
+  TargetOpen = FALSE
+  SharedBuffer = FALSE
+  Bodies = {"b1"}
 INVARIANTS Shape
